@@ -234,7 +234,7 @@ Definition rshape (r : key * list cval) : key * nat := (fst r, length (snd r)).
 Definition ashape (e : sentry) : (list N * list (key * nat) * list (N * N) * list (N * N)) + N :=
   match e with SOcc a => inl (a_comps a, map rshape (a_rows a), a_ins a, a_rem a) | SVac v => inr v end.
 Definition structure (w : world) :=
-  (w_ents w, w_comps w, map ashape (sl_entries (w_archs w)), sl_next (w_archs w), w_aby w).
+  (w_cby w, w_ents w, w_comps w, map ashape (sl_entries (w_archs w)), sl_next (w_archs w), w_aby w).
 
 Section Structure.
 Notation pi := structure.
